@@ -1,6 +1,9 @@
-"""A3 (difference-bound guard analysis, restricted to what the rules need): forward dataflow of facts
-"v + k < L" over simple integer terms (locals, parameters, members, *param), with shifting on v++ / v += c,
-killing on other writes, intersection (min k) at joins. Used to classify subscripts on (array, length) pairs."""
+"""A3 (difference-bound guard analysis): abstract interpretation of one function over the zone domain
+(difference-bound matrices): constraints x - y <= c over simple integer terms (locals, parameters, members, *param,
+and the constant 0), kept closed incrementally; assignments x := y + c are exact, other writes forget the term;
+branch conditions are assumed on their edges (an unsatisfiable state prunes the edge); join = pointwise max,
+widening after a few visits, then two narrowing passes.  Unsigned `y - c` without a known y >= c forgets the
+target and marks it may-have-wrapped.  Rules read the result as facts "v + k < L"."""
 import re
 from .facts import S, strip, nodes, walk, is_lit
 from . import pat as P
@@ -37,112 +40,230 @@ def term(e):
     return None
 
 
-class Facts(dict):
-    """(v, L) -> k  meaning v + k < L"""
+class Facts:
+    """zone (DBM): b[(x, y)] = c  means  x - y <= c; closed under shortest paths; None state = unreachable"""
 
-    def add(self, v, L, k):
-        if v == L:
+    def __init__(self, o=None):
+        self.b = dict(o.b) if o is not None else {}
+        self.wrap = set(o.wrap) if o is not None else set()
+        self.bottom = o.bottom if o is not None else False
+
+    # ---- read interface used by the rules: (v, L) -> k  meaning  v + k < L
+    def get(self, p, default=None):
+        if p[1] == '#wrap':
+            return 0 if p[0] in self.wrap else default
+        if p[0] == p[1]:
+            return -1
+        c = self.b.get(p)
+        return default if c is None else -c - 1
+
+    def __contains__(self, p):
+        return (p[0] in self.wrap) if p[1] == '#wrap' else (p in self.b)
+
+    def __eq__(self, o):
+        return o is not None and self.bottom == o.bottom and self.b == o.b and self.wrap == o.wrap
+
+    def vars(self):
+        vs = {'0'}
+        for x, y in self.b:
+            vs.add(x)
+            vs.add(y)
+        return vs
+
+    def add(self, x, y, c):
+        """x - y <= c, with incremental closure"""
+        if self.bottom:
             return
-        if self.get((v, L), -INF) < k:
-            self[(v, L)] = k
+        if x == y:
+            if c < 0:
+                self.bottom = True
+            return
+        b = self.b
+        if c >= b.get((x, y), INF):
+            return
+        if b.get((y, x), INF) + c < 0:
+            self.bottom = True
+            return
+        vs = self.vars() | {x, y}
+        ins = [(i, 0 if i == x else b.get((i, x), INF)) for i in vs]
+        outs = [(j, 0 if j == y else b.get((y, j), INF)) for j in vs]
+        ins = [(i, d) for i, d in ins if d < INF]
+        outs = [(j, d) for j, d in outs if d < INF]
+        for i, di in ins:
+            for j, dj in outs:
+                n = di + c + dj
+                if i == j:
+                    if n < 0:
+                        self.bottom = True
+                        return
+                    continue
+                if n < b.get((i, j), INF):
+                    b[(i, j)] = n
 
-    def kill(self, t):
-        for p in [p for p in self if p[0] == t or p[1] == t or p[0].startswith(t + '->') or p[1].startswith(t + '->')]:
-            del self[p]
+    def forget(self, t):
+        pre = t + '->'
+        for p in [p for p in self.b if p[0] == t or p[1] == t or p[0].startswith(pre) or p[1].startswith(pre) or p[0] == '*' + t or p[1] == '*' + t]:
+            del self.b[p]
+        self.wrap.discard(t)
+
+    kill = forget
 
     def shift(self, t, c):
         """t := t + c"""
-        for p in list(self):
-            if (p[0] == t and p[1] == t) or p[1] == '#wrap':
-                continue
+        for p in list(self.b):
             if p[0] == t:
-                self[p] = self[p] - c
+                self.b[p] += c
             elif p[1] == t:
-                self[p] = self[p] + c
+                self.b[p] -= c
 
-    def close(self):
-        """one-step transitive closure: a + k1 < b and b + k2 < c  =>  a + (k1 + k2 + 1) < c (integers)"""
-        ch = True
-        n = 0
-        while ch and n < 4:
-            ch = False
-            n += 1
-            items = list(self.items())
-            for (a, b), k1 in items:
-                if b == '#wrap':
-                    continue
-                for (b2, c), k2 in items:
-                    if b2 != b or c == a or c == '#wrap':
-                        continue
-                    k = k1 + k2 + 1
-                    if self.get((a, c), -INF) < k:
-                        self[(a, c)] = k
-                        ch = True
+    def lower(self, t):
+        """greatest known constant lower bound of t (0 - t <= c  =>  t >= -c), or None"""
+        c = self.b.get(('0', t))
+        return None if c is None else -c
 
-    def meet(self, o):
-        m = Facts({p: min(k, o[p]) for p, k in self.items() if p in o})
-        for src in (self, o):
-            for p in src:
-                if p[1] == '#wrap':
-                    m[p] = 0                  # "may have wrapped" is a may-fact: union at joins
-        return m
+    def join(self, o):
+        if self.bottom:
+            return Facts(o)
+        if o.bottom:
+            return Facts(self)
+        r = Facts()
+        r.b = {p: max(c, o.b[p]) for p, c in self.b.items() if p in o.b}
+        r.wrap = self.wrap | o.wrap
+        return r
+
+    def widen(self, new):
+        """self = old state; keep only the constraints of old that new does not weaken"""
+        if self.bottom:
+            return Facts(new)
+        if new.bottom:
+            return Facts(self)
+        r = Facts()
+        for p, c in self.b.items():
+            n = new.b.get(p)
+            if n is None:
+                continue
+            if n <= c:
+                r.b[p] = c
+            else:
+                # widening with thresholds: the off-by-one neighbourhood is where the loop invariants of scanners live
+                t = [t for t in THRESHOLDS if t >= n]
+                if t:
+                    r.b[p] = t[0]
+        r.wrap = self.wrap | new.wrap
+        return r
+
+    def items(self):
+        return [((x, y), -c - 1) for (x, y), c in self.b.items()]
 
 
-def assume(fs, cond, pol):
+def _uns(e):
+    e = strip(e)
+    return e is not None and 'unsigned' in (e.get('t') or '')
+
+
+def assume(fs, cond, pol, uns=()):
     a = strip(cond)
-    if a is None:
+    if a is None or fs.bottom:
         return
     if a.get('k') == 'un' and a['op'] == '!':
-        return assume(fs, a['e'], not pol)
+        return assume(fs, a['e'], not pol, uns)
     if a.get('k') == 'bin' and a['op'] in ('<', '<=', '>', '>=', '==', '!='):
-        l, r = term(a['l']), term(a['r'])
-        if not l or not r:
-            return
         op = a['op'] if pol else P.NEG[a['op']]
-        (x, kx), (y, ky) = l, r                 # x + kx op y + ky
-        if op == '<':
-            fs.add(x, y, kx - ky)
-            if x != '0':
-                fs.add('0', y, kx - ky)          # x >= 0 (index terms are unsigned): 0 + (kx - ky) < y
-        elif op == '<=':
-            fs.add(x, y, kx - ky - 1)
-            if x != '0':
-                fs.add('0', y, kx - ky - 1)
-        elif op == '>':
-            fs.add(y, x, ky - kx)
-            if y != '0':
-                fs.add('0', x, ky - kx)
-        elif op == '>=':
-            fs.add(y, x, ky - kx - 1)
-            if y != '0':
-                fs.add('0', x, ky - kx - 1)
-        elif op == '==':
-            fs.add(x, y, kx - ky - 1)
-            fs.add(y, x, ky - kx - 1)
-        elif op == '!=':
-            # unsigned x != 0  =>  0 < x
-            if y == '0' and ky - kx == 0:
-                fs.add('0', x, 0 - 0 + (kx - ky))
-            # x <= y known and x != y  =>  x < y
-            if fs.get((x, y), -INF) == kx - ky - 1:
-                fs[(x, y)] = kx - ky
-                if x != '0':
-                    fs.add('0', y, kx - ky)
-            if fs.get((y, x), -INF) == ky - kx - 1:
-                fs[(y, x)] = ky - kx
-                if y != '0':
-                    fs.add('0', x, ky - kx)
+        l, r = term(a['l']), term(a['r'])
+        if l and r:
+            (x, kx), (y, ky) = l, r                 # x + kx op y + ky
+            d = ky - kx                              # x - y op d
+            # an upper bound that holds now is a fact about the current value, whatever its history: clears may-have-wrapped
+            if op == '<':
+                fs.add(x, y, d - 1)
+                fs.wrap.discard(x)
+            elif op == '<=':
+                fs.add(x, y, d)
+                fs.wrap.discard(x)
+            elif op == '>':
+                fs.add(y, x, -d - 1)
+                fs.wrap.discard(y)
+            elif op == '>=':
+                fs.add(y, x, -d)
+                fs.wrap.discard(y)
+            elif op == '==':
+                fs.add(x, y, d)
+                fs.add(y, x, -d)
+                fs.wrap.discard(x)
+                fs.wrap.discard(y)
+            elif op == '!=':
+                if fs.b.get((x, y)) == d:
+                    fs.add(x, y, d - 1)
+                if fs.b.get((y, x)) == -d:
+                    fs.add(y, x, -d - 1)
+            return
+        # (x + kx) - (y + ky)  op  c
+        for lhs, rhs, o in ((a['l'], a['r'], op), (a['r'], a['l'], {'<': '>', '<=': '>=', '>': '<', '>=': '<=', '==': '==', '!=': '!='}[op])):
+            L, R = strip(lhs), term(rhs)
+            if L is None or L.get('k') != 'bin' or L['op'] != '-' or not R or R[0] != '0':
+                continue
+            tx, ty = term(L['l']), term(L['r'])
+            if not tx or not ty:
+                continue
+            (x, kx), (y, ky), c = tx, ty, R[1]
+            unsigned = _uns(L)
+            # value u = x - y + (kx - ky)
+            if o in ('<', '<=', '=='):
+                hi = c - 1 if o == '<' else c
+                fs.add(x, y, hi - (kx - ky))
+                if unsigned:
+                    fs.add(y, x, kx - ky)            # a small unsigned difference cannot be a wrapped one
+                if o == '==':
+                    fs.add(y, x, (kx - ky) - c)
+            elif o in ('>', '>='):
+                lo = c + 1 if o == '>' else c
+                if not unsigned or fs.b.get((y, x), INF) <= kx - ky:
+                    fs.add(y, x, (kx - ky) - lo)
+            return
     elif a.get('k') in ('var', 'member') or (a.get('k') == 'un' and a['op'] == '*'):
         t = term(a)
-        if t and pol:
-            fs.add('0', t[0], -t[1])          # truthy unsigned: 0 < t
+        if t and t[1] == 0:
+            if pol and (t[0] in uns or _uns(a)):
+                fs.add('0', t[0], -1)              # truthy unsigned: t >= 1
+            elif not pol:
+                fs.add(t[0], '0', 0)
+                fs.add('0', t[0], 0)
 
 
-def transfer(fs, st, on_index=None):
+PURE = ('htp_is_', 'isxdigit', 'isdigit', 'tolower', 'toupper', 'isspace', 'isalnum', 'isalpha', 'x2c', 'bstr_util_mem_index_of', 'memchr', 'memcmp', 'strlen')
+
+
+def _assign(fs, t, tnode, rt, uns):
+    """t := rt  (rt = (key, const) or None)"""
+    unsigned = t in uns or _uns(tnode)
+    if rt and rt[0] == t:
+        c = rt[1]
+        if c < 0 and unsigned and (fs.lower(t) is None or fs.lower(t) < -c):
+            fs.forget(t)
+            fs.wrap.add(t)
+        else:
+            fs.shift(t, c)
+        return
+    wrapped = rt and rt[0] in fs.wrap
+    if rt and rt[0] != '0' and rt[1] < 0 and unsigned and (fs.lower(rt[0]) is None or fs.lower(rt[0]) < -rt[1]):
+        fs.forget(t)
+        fs.wrap.add(t)
+        return
+    fs.forget(t)
+    if rt:
+        fs.add(t, rt[0], rt[1])
+        fs.add(rt[0], t, -rt[1])
+        if wrapped:
+            fs.wrap.add(t)
+
+
+def transfer(fs, st, on_index=None, uns=()):
     """apply the effects of one root statement; on_index(node, facts) is called for every subscript before effects"""
     if on_index:
         for x in nodes(st, lambda y: y.get('k') == 'index'):
             on_index(x, fs)
+    if fs.bottom:
+        return
     for x in nodes(st):
         k = x['k']
         if k == 'assign':
@@ -151,65 +272,35 @@ def transfer(fs, st, on_index=None):
                 continue
             t = lt[0]
             if x['op'] == '=':
-                rt = term(x['r'])
-                if rt and rt[0] == t:
-                    fs.shift(t, rt[1])
-                else:
-                    fs.kill(t)
-                    if rt and rt[0] != '0' and rt[1] < 0 and fs.get(('0', rt[0]), -INF) < -rt[1] - 1 and 'unsigned' in (strip(x['l']).get('t') or ''):
-                        fs[(t, '#wrap')] = 0            # unsigned y - c with no y >= c fact: t may have wrapped
-                    elif rt and rt[0] != '0':
-                        # t = y + c  =>  t - c == y : t + (-c - 1) < y ... and y + (c - 1) < t
-                        fs.add(t, rt[0], -rt[1] - 1)
-                        fs.add(rt[0], t, rt[1] - 1)
-                        # inherit upper bounds of y: y + k < L  =>  t + (k - c) < L
-                        for (v, L), kk in list(fs.items()):
-                            if v == rt[0] and L != t:
-                                fs.add(t, L, kk - rt[1])
-                            if L == rt[0] and v != t:
-                                fs.add(v, t, kk + rt[1])
-                    elif rt:
-                        fs.add('0', t, rt[1] - 1)       # t = c  =>  0 + (c - 1) < t
-                        fs.add(t, '0', -rt[1] - 1)
+                _assign(fs, t, x['l'], term(x['r']), uns)
             elif x['op'] in ('+=', '-='):
                 rt = term(x['r'])
                 if rt and rt[0] == '0':
-                    fs.shift(t, rt[1] if x['op'] == '+=' else -rt[1])
+                    _assign(fs, t, x['l'], (t, rt[1] if x['op'] == '+=' else -rt[1]), uns)
                 else:
-                    fs.kill(t)
+                    fs.forget(t)
             else:
-                fs.kill(t)
+                fs.forget(t)
         elif k == 'un' and x['op'] in ('++', '++post', '--', '--post'):
             lt = term(x['e'])
             if lt and lt[1] == 0:
-                fs.shift(lt[0], 1 if '+' in x['op'] else -1)
+                _assign(fs, lt[0], x['e'], (lt[0], 1 if '+' in x['op'] else -1), uns)
         elif k == 'call':
             for a in x['args']:
                 a = strip(a)
                 if a is not None and a.get('k') == 'un' and a['op'] == '&':
                     t = term(a['e'])
                     if t:
-                        fs.kill(t[0])
-            for p in [p for p in fs if '->' in p[0] or '->' in p[1] or p[0].startswith('*') or p[1].startswith('*')]:
+                        fs.forget(t[0])
+            if not (x.get('callee') or '').startswith(PURE):
                 # a call may write anything reachable through pointers
-                if not (x.get('callee') or '').startswith(('htp_is_', 'isxdigit', 'isdigit', 'tolower', 'isspace', 'x2c')):
-                    del fs[p]
+                for p in [p for p in fs.b if '->' in p[0] or '->' in p[1] or p[0].startswith('*') or p[1].startswith('*')]:
+                    del fs.b[p]
         elif k == 'decl':
             for v in x['vars']:
-                fs.kill(v['name'])
+                fs.forget(v['name'])
                 if 'init' in v:
-                    rt = term(v['init'])
-                    if rt and rt[0] != '0' and rt[1] < 0 and fs.get(('0', rt[0]), -INF) < -rt[1] - 1 and 'unsigned' in v['t']:
-                        fs[(v['name'], '#wrap')] = 0
-                    elif rt and rt[0] != '0':
-                        fs.add(v['name'], rt[0], -rt[1] - 1)
-                        fs.add(rt[0], v['name'], rt[1] - 1)
-                        for (vv, L), kk in list(fs.items()):
-                            if vv == rt[0] and L != v['name']:
-                                fs.add(v['name'], L, kk - rt[1])
-                    elif rt:
-                        fs.add('0', v['name'], rt[1] - 1)
-                        fs.add(v['name'], '0', -rt[1] - 1)
+                    _assign(fs, v['name'], {'t': v['t']}, term(v['init']), uns)
 
 
 def unsigned_terms(fn):
@@ -227,54 +318,147 @@ def unsigned_terms(fn):
     return out
 
 
-def analyse(fn, on_index):
-    """run the dataflow to a fixpoint, then call on_index(node, facts, block, idx) for every subscript"""
+WIDEN_AFTER = 3
+THRESHOLDS = (-3, -2, -1, 0, 1, 2, 3)
+
+
+def flag_locals(fn):
+    """locals that only ever hold literal constants (flags like `handled`): states are partitioned by their value"""
+    cand, bad = {}, set()
+    for b, i, st in fn.stmts():
+        for x in nodes(st):
+            k = x['k']
+            if k == 'decl':
+                for v in x['vars']:
+                    if '*' in v['t'] or '[' in v['t'] or not any(t in v['t'] for t in ('int', 'long', 'short', 'char', '_Bool')):
+                        continue
+                    if 'init' in v:
+                        if is_lit(strip(v['init'])):
+                            cand.setdefault(v['name'], set()).add(strip(v['init'])['v'])
+                        else:
+                            bad.add(v['name'])
+                    else:
+                        cand.setdefault(v['name'], set())
+            elif k == 'assign':
+                l = strip(x['l'])
+                if l.get('k') == 'var':
+                    if x['op'] == '=' and is_lit(strip(x['r'])):
+                        if l['name'] in cand:
+                            cand[l['name']].add(strip(x['r'])['v'])
+                    else:
+                        bad.add(l['name'])
+            elif k == 'un' and x['op'] in ('++', '--', '++post', '--post', '&'):
+                e = strip(x['e'])
+                if e is not None and e.get('k') == 'var':
+                    bad.add(e['name'])
+    params = {p['name'] for p in fn.params}
+    return sorted(n for n, vs in cand.items() if n not in bad and n not in params and 1 <= len(vs) <= 3)[:3]
+
+
+def solve(fn):
+    """fixpoint: returns (CTX: block -> {context key: state}, unsigned terms).  A context key is (edge, flags):
+    a block that ends in a switch keeps one state per incoming edge (the join is delayed past the dispatch, so that a
+    `state = K; goto DISPATCH;` reaches only the arm K), and states are kept apart by the constant values of the
+    function's flag locals (so that `if (!handled)` is decided per value of `handled`)."""
     live = C.reachable(fn, fn.entry)
     uns = unsigned_terms(fn)
+    split = {b for b in live if fn.blocks[b].get('term', {}).get('kind') == 'SwitchStmt' and len(fn.preds.get(b, [])) > 1}
+    flags = flag_locals(fn)
+
+    def flagkey(fs):
+        out = []
+        for f in flags:
+            hi, lo = fs.b.get((f, '0')), fs.b.get(('0', f))
+            out.append(hi if (hi is not None and lo is not None and hi == -lo) else None)
+        return tuple(out)
 
     def typefacts(fs):
         for u in uns:
-            fs.add('0', u, -1)               # 0 <= u for unsigned terms: a type fact, survives every kill
-        fs.close()
-    init = Facts()
-    typefacts(init)
-    IN = {fn.entry: init}
-    work = [fn.entry]
-    visits = {}
-    while work:
-        b = work.pop()
-        visits[b] = visits.get(b, 0) + 1
-        fs = Facts(IN[b])
+            fs.add('0', u, 0)                # 0 <= u for unsigned terms: a type fact, survives every forget
+
+    def flow(b, fs):
+        """edge states out of block b for the state fs at its entry"""
+        fs = Facts(fs)
         blk = fn.blocks[b]
         for st in blk['stmts']:
-            transfer(fs, st)
+            transfer(fs, st, uns=uns)
             typefacts(fs)
         cnd = fn.cond_of(b)
+        sw = term(blk['stmts'][-1]) if blk.get('term', {}).get('kind') == 'SwitchStmt' and blk['stmts'] else None
+        out = []
         for j, s in enumerate(blk['succs']):
             if s is None or s not in live:
                 continue
             ns = Facts(fs)
             if cnd and blk['stmts']:
-                assume(ns, blk['stmts'][-1], j == 0)
+                assume(ns, blk['stmts'][-1], j == 0, uns)
                 typefacts(ns)
-            if s in IN:
-                m = IN[s].meet(ns)
-                if visits.get(s, 0) > 12:
-                    # widening: drop facts that keep shrinking
-                    m = Facts({p: k for p, k in m.items() if IN[s].get(p) == k})
-                if m != IN[s]:
-                    IN[s] = m
+            elif sw:
+                lab = fn.blocks[s].get('label', {})
+                if lab.get('kind') == 'CaseStmt' and isinstance(lab.get('v'), int):
+                    ns.add(sw[0], '0', lab['v'] - sw[1])
+                    ns.add('0', sw[0], sw[1] - lab['v'])
+            if not ns.bottom:
+                out.append(((b, j), s, ns))
+        return out
+
+    def outs_of(b):
+        """(target block, context key there, state) for every context of b and every feasible out edge, joined per target context"""
+        outs = {}
+        for key, st in CTX[b].items():
+            for e, s, ns in flow(b, st):
+                k = (s, (e if s in split else None, flagkey(ns)))
+                outs[k] = outs[k].join(ns) if k in outs else ns
+        return outs
+    init = Facts()
+    typefacts(init)
+    CTX = {fn.entry: {(None, flagkey(init)): init}}
+    work = [fn.entry]
+    visits = {}
+    while work:
+        b = work.pop()
+        visits[b] = visits.get(b, 0) + 1
+        for (s, key), ns in outs_of(b).items():
+            old = CTX.setdefault(s, {}).get(key)
+            if old is None:
+                CTX[s][key] = Facts(ns)
+                if s not in work:
                     work.append(s)
-            else:
-                IN[s] = ns
-                work.append(s)
-    for b in live:
-        if b not in IN:
-            continue
-        fs = Facts(IN[b])
-        for i, st in enumerate(fn.blocks[b]['stmts']):
-            transfer(fs, st, on_index=lambda x, f_, b=b, i=i: on_index(x, f_, b, i))
-            typefacts(fs)
+                continue
+            m = old.join(ns)
+            if visits.get(s, 0) >= WIDEN_AFTER:
+                m = old.widen(m)
+            if visits.get(s, 0) > 80:
+                m = Facts()
+                typefacts(m)
+            if m != old:
+                CTX[s][key] = m
+                if s not in work:
+                    work.append(s)
+    # narrowing: recompute every state from its predecessors' edge states, twice (each pass keeps a post-fixpoint)
+    for _ in range(2):
+        NEW = {}
+        for b in CTX:
+            for (s, key), ns in outs_of(b).items():
+                d = NEW.setdefault(s, {})
+                d[key] = d[key].join(ns) if key in d else ns
+        for b in list(CTX):
+            if b != fn.entry and b in NEW:
+                CTX[b] = NEW[b]
+    return CTX, uns
+
+
+def analyse(fn, on_index):
+    """run the dataflow to a fixpoint, then call on_index(node, facts, block, idx) for every subscript
+    (once per context for the blocks that keep several)"""
+    CTX, uns = solve(fn)
+    for b in CTX:
+        for key, st0 in CTX[b].items():
+            fs = Facts(st0)
+            for i, st in enumerate(fn.blocks[b]['stmts']):
+                transfer(fs, st, on_index=lambda x, f_, b=b, i=i: on_index(x, f_, b, i), uns=uns)
+                for u in uns:
+                    fs.add('0', u, 0)
 
 
 def pairs_of(fn):
